@@ -187,6 +187,7 @@ def check_section_history(ctx, case, by_construction=False):
         sec.set_quiet(bool(quiet))
         sec.set_verbosity(verbosity)
         marker = "MK%dX" % i
+        before = stream.fetch()
         try:
             sec.write_line(marker, flags)
         except Exception as e:
@@ -194,6 +195,11 @@ def check_section_history(ctx, case, by_construction=False):
             return
         written.append((marker, expected_open(verbosity, flags, bool(quiet))))
         data = stream.fetch()
+        if not written[-1][1] and data != before:
+            # a write that the gate closes emits nothing at all - no text, no cursor movement, no redraw of other sections
+            ctx.fail("section-history", "C10.nothing-else", case, "stream unchanged by a closed write",
+                     {"step": i, "emitted": data[len(before):]}, sig="section-history-closed-write-emits")
+            return
         for m, was_open in written:
             if (m in data) != was_open:
                 ctx.fail("section-history", "C10.gate" if was_open else "C10.nothing-else", case,
